@@ -269,7 +269,7 @@ func TestC18_RoundTripExhaustive(t *testing.T) {
 type accCase struct {
 	Scheme int
 	BS     int
-	S      []byte
+	S      h.B
 }
 
 func checkAccept(c accCase, r *h.Rec) error {
@@ -403,7 +403,7 @@ func TestC18_AcceptSetRandom(t *testing.T) {
 type anyCase struct {
 	Scheme int
 	BS     int
-	S      []byte
+	S      h.B
 }
 
 func TestC18_NoPanic(t *testing.T) {
